@@ -101,7 +101,18 @@ enum { SC_STD = 0,        /* RFC 8446 with PSK = 0: HKDF-Extract(0, 0^Hash.lengt
        SC_OTHER_HASH,     /* HKDF-Extract(0, 0) computed under the OTHER hash family, truncated / zero-padded to the negotiated length */
        SC_N };
 static const char *scname[] = { "standard-psk0", "zero-early-secret", "other-hash-early-secret" };
-static const char *cbn[] = { "no-callback", "strict-callback" };
+static const char *cbn[] = { "no-callback", "strict-callback", "callback-returns-minus-1", "callback-returns-minus-2", "callback-returns-int32-min", "callback-returns-another-alert", "callback-returns-255", "allow-anon-callback", "permissive-callback" };
+/* certificate callback results (sslCertCb_t: 0 accept, SSL_ALLOW_ANON_CONNECTION accept as anonymous, > 0 alert to send, < 0 internal error); modes 2..6 say "do not continue" */
+static int kcb_calls;
+static int32 kcb_neg1(ssl_t *s, psX509Cert_t *c, int32 a) { (void) s; (void) c; (void) a; kcb_calls++; return -1; }
+static int32 kcb_neg2(ssl_t *s, psX509Cert_t *c, int32 a) { (void) s; (void) c; (void) a; kcb_calls++; return -2; }
+static int32 kcb_min(ssl_t *s, psX509Cert_t *c, int32 a) { (void) s; (void) c; (void) a; kcb_calls++; return (int32) (-2147483647 - 1); }
+static int32 kcb_alert(ssl_t *s, psX509Cert_t *c, int32 a) { (void) s; (void) c; kcb_calls++; return a == SSL_ALERT_ACCESS_DENIED ? SSL_ALERT_INSUFFICIENT_SECURITY : SSL_ALERT_ACCESS_DENIED; }
+static int32 kcb_255(ssl_t *s, psX509Cert_t *c, int32 a) { (void) s; (void) c; (void) a; kcb_calls++; return 255; }
+static int32 kcb_anon(ssl_t *s, psX509Cert_t *c, int32 a) { (void) s; (void) c; (void) a; kcb_calls++; return SSL_ALLOW_ANON_CONNECTION; }
+static const sslCertCb_t kcb[] = { NULL, mx_cert_cb_strict, kcb_neg1, kcb_neg2, kcb_min, kcb_alert, kcb_255, kcb_anon, mx_cert_cb_accept };
+#define KCB_N 9
+#define KCB_REFUSES(m) ((m) >= 2 && (m) <= 6)
 enum { CL_DEFAULT = 0, CL_X25519, CL_P256, CL_TWO, CL_N };                      /* which key shares the client offers */
 static const char *clname[] = { "default-groups", "x25519-share", "p256-share", "two-shares" };
 enum { FF_NONE = 0, FF_SAME, FF_SAME_PSK0, FF_SAME_COOKIE, FF_OTHER, FF_OTHER_PSK0, FF_OTHER_COOKIE,
@@ -212,7 +223,7 @@ static int k13_client(mx_ep *e, const k13_t *k, sslSessionId_t *sid)
     if (k->cl == CL_X25519) matrixSslSessOptsSetKeyExGroups(&o, gx, 3, 1); else if (k->cl == CL_P256) matrixSslSessOptsSetKeyExGroups(&o, gp, 3, 1); else if (k->cl == CL_TWO) matrixSslSessOptsSetKeyExGroups(&o, gx, 3, 2);
     memset(e, 0, sizeof *e); e->role = MX_CLIENT; e->ver = MX_TLS13; e->id = 0; e->name = "C"; e->sid = sid; psCipher16_t cs[3] = { 0x1301, 0x1302, 0x1303 };
     mx_actor = 0; MX_ENTER();
-    int rc = matrixSslNewClientSession(&e->ssl, k->st == ST_EXTPSK ? extpskKeys : k->st == ST_EXTPSK384 ? extpsk384Keys : mx_keys.cli, sid, cs, k->multi ? 3 : 1, k->cb ? mx_cert_cb_strict : NULL, NULL, NULL, NULL, &o);
+    int rc = matrixSslNewClientSession(&e->ssl, k->st == ST_EXTPSK ? extpskKeys : k->st == ST_EXTPSK384 ? extpsk384Keys : mx_keys.cli, sid, cs, k->multi ? 3 : 1, kcb[k->cb], NULL, NULL, NULL, &o);
     MX_LEAVE(); e->wantTake = 1;
     return rc < 0 ? rc : 0;
 }
@@ -234,7 +245,7 @@ static void run_k13(void *a_)
     u8 early[HMAX], derived[HMAX], hsSecret[HMAX], sHs[HMAX], master[HMAX], sAp[HMAX], finKey[HMAX], verify[HMAX], mypub[200], shared[64]; int mypubl = 0, sharedl = 0;
     tkeys_t kHs, kAp; ch_t ch; mx_ep C; unsigned char *out = NULL; const char *stage = "client-hello"; int alert = -1, crypto_known = 0;
     vf_rng R; vf_rng_init(&R, vf_seed, vf_hash(cur_desc, strlen(cur_desc)));
-    vf_stat("cases", 1); vf_stat(k->control == 1 ? "keyless13_controls" : k->control ? "keyless13_probes" : "keyless13_attack_cases", 1);
+    vf_stat("cases", 1); vf_stat(k->control == 1 ? "keyless13_controls" : k->control == 3 ? "keyless13_callback_result_cases" : k->control ? "keyless13_probes" : "keyless13_attack_cases", 1);
     if (k13_client(&C, k, k->st == ST_FRESH || k->st == ST_EXTPSK || k->st == ST_EXTPSK384 ? NULL : sids[k->st]) < 0) { vf_incon("keyless13: client session (%s)", cur_desc); return; }
     if (k->st == ST_EARLY) { if (matrixSslGetMaxEarlyData(C.ssl) <= 0) { vf_incon("keyless13: early data not available to the client"); return; } u8 p[48]; mx_payload(p, 48, 0x0c04, 0, 7); if (mx_send(&C, p, 48) < 0) { vf_incon("keyless13: early data refused"); return; } }
     n = mx_take(&C, &out);
@@ -317,7 +328,13 @@ verdict:
     if (k->control) {
         int ok = done && C.gotlen == sizeof INJECT - 1 && !memcmp(C.got, INJECT, sizeof INJECT - 1);
         vf_distinct("k13ctl|%s|%s|%s", stname[k->st], cbn[k->cb], scr);
-        if (k->control == 2) vf_stat(ok ? "k13_probe_legal_fallback_to_other_hash_family_ok" : "k13_probe_legal_fallback_to_other_hash_family_failed", 1);   /* not C04's business: see main() */
+        if (k->control == 3) {   /* the legal flight with the real key, but the client's certificate callback refuses */
+            vf_statf(1, "k13_cbresult_%s_%s", cbn[k->cb] + 9, done ? "COMPLETE" : alert == SSL_ALERT_INTERNAL_ERROR ? "internal_error" : alert == SSL_ALERT_ACCESS_DENIED ? "that-alert" : "other-alert");
+            if (done || data) { char key[200]; snprintf(key, sizeof key, "c04:completed-although-callback-refused:tls1.3:client-verifies-server:good:%s:real-key-flight", cbn[k->cb]);
+                vf_violation(key, cur_desc, "a TLS 1.3 client completed%s although its certificate callback (%s, called %d times) refused; sslCertCb_t: < 0 is a fatal internal error, > 0 is the alert to send", data ? " and delivered data" : "", cbn[k->cb], kcb_calls); }
+            else vf_stat("keyless13_callback_refusals_honoured", 1);
+        }
+        else if (k->control == 2) vf_stat(ok ? "k13_probe_legal_fallback_to_other_hash_family_ok" : "k13_probe_legal_fallback_to_other_hash_family_failed", 1);   /* not C04's business: see main() */
         else if (ok) vf_stat("keyless13_controls_ok", 1);
         else vf_violation("c04:harness:keyless13-control-failed", cur_desc, "the control (same attacker code, but holding the real server key and sending the legal flight %s) did not complete against a %s client with %s: stopped at %s, alert %d, complete=%d, delivered %zu bytes - the attacker's key schedule / record protection is off, the attack cases prove nothing",
                           scr, stname[k->st], cbn[k->cb], stage, alert, done, C.gotlen);
@@ -349,7 +366,7 @@ static void one(const k13_t *k)
 {
     long my = idx++; if (!vf_mine(my)) return;
     char scr[240]; script_name(k, scr, sizeof scr);
-    snprintf(cur_desc, sizeof cur_desc, "k13 %s state=%s cb=%s script=%s", k->control == 1 ? "control" : k->control ? "probe" : "attack", stname[k->st], cbn[k->cb], scr);
+    snprintf(cur_desc, sizeof cur_desc, "k13 %s state=%s cb=%s script=%s", k->control == 1 ? "control" : k->control == 3 ? "callback-result" : k->control ? "probe" : "attack", stname[k->st], cbn[k->cb], scr);
     if (vf_case && strcmp(vf_case, cur_desc)) return;
     if (!k->control && my % 211 == 0) vf_sample("%s", cur_desc);
     mx_entropy_seed(vf_seed * 41 + (uint64_t) my);
@@ -385,6 +402,8 @@ int main(int argc, char **argv)
             k13_t k = { st, cb, clq[cl], ff, shpsk_val[sp], ks, ee, t, 0 }; one(&k);
         }
     }
+    /* the legal flight with the real key against clients whose certificate callback answers outside {0, the alert shown}: refusing values must end the handshake, SSL_ALLOW_ANON_CONNECTION and 0 accept */
+    for (int st = ST_FRESH; st <= ST_TICKET; st++) for (int cb = 2; cb < KCB_N; cb++) for (int t = T_LEGAL_RSA; t <= T_LEGAL_EC; t++) { k13_t k = { st, cb, CL_DEFAULT, FF_NONE, -1, 1, 0, t, KCB_REFUSES(cb) ? 3 : 1 }; one(&k); }
     /* PSK hash vs. suite hash: the client offers all three TLS 1.3 suites and holds a PSK bound to SHA-256 or SHA-384 (or none); the attacker's ServerHello picks a suite of
        either hash family, selects identity 0 (or none), and guesses the client's Early Secret three ways.  RFC 8446 4.2.11: the client must abort when the selected PSK's hash is not the suite's. */
     static const int mst[] = { ST_TICKET384, ST_TICKET, ST_EXTPSK384, ST_EXTPSK, ST_FRESH };
